@@ -1084,6 +1084,69 @@ impl Store {
     }
 }
 
+#[cfg(feature = "verif")]
+impl<K, V> Node<K, V>
+where
+    K: DeserializeOwned + Eq + Hash,
+{
+    pub fn verif_trim(&mut self) -> bool {
+        self.trim()
+    }
+
+    pub fn verif_ls_owned(&self) -> Vec<RegularKeySegment> {
+        self.ls_owned()
+    }
+
+    pub fn verif_is_clean(&self) -> bool {
+        self.is_clean()
+    }
+
+    pub fn verif_is_empty(&self) -> bool {
+        self.is_empty()
+    }
+}
+
+#[cfg(feature = "verif")]
+impl Store {
+    pub fn verif_data(&self) -> &StoreNode {
+        &self.data
+    }
+
+    pub fn verif_locks_clean(&self) -> bool {
+        self.locks.is_empty() || self.locks.is_clean()
+    }
+}
+
+#[cfg(feature = "verif")]
+pub mod verif_lock {
+    use super::*;
+
+    /// the private `Lock` behind a public handle
+    pub struct VerifLock(Lock);
+
+    impl VerifLock {
+        pub fn new(client_id: ClientId) -> Self {
+            VerifLock(Lock::new(client_id))
+        }
+
+        pub async fn release(&mut self, client_id: ClientId) -> (bool, Option<ClientId>) {
+            self.0.release(client_id).await
+        }
+
+        pub async fn queue(&mut self, client_id: ClientId, tx: oneshot::Sender<()>) {
+            self.0.queue(client_id, tx).await
+        }
+
+        pub fn holder(&self) -> ClientId {
+            self.0.holder
+        }
+
+        pub fn queue_ids(&self) -> Vec<(ClientId, usize)> {
+            self.0.candidates.iter().map(|(c, txs)| (*c, txs.len())).collect()
+        }
+    }
+}
+
 fn concat_key(path: &[&str], key: Option<&str>) -> String {
     let mut string = String::new();
     for elem in path {
